@@ -50,7 +50,7 @@ def mat(m):
     return np.array([[rat(x) for x in row] for row in m], dtype=float)
 
 
-DELTAS = (1e-5, 1e-7)   # perturbation sizes for the nearly degenerate (limit) cases
+DELTAS = (1e-5, 1e-7, 3e-9)   # perturbation sizes for the nearly degenerate (limit) cases
 
 
 def case_inputs(case, delta=None):
